@@ -466,7 +466,7 @@ def walkPath (cx : Ctx) (useIR : Bool) : List String → View.Win → Bool → P
     | "idx" =>
       (match viaIdx { form := .pos, pos := a } false with
        | .ok w' => (.elem w'.s false, m, rest) | .none => (.none, m, rest) | .panic => (.panic, m, rest) | .stuck => (.stuck, m, rest))
-    | "reborrow" => walkPath cx useIR rest w m
+    | "reborrow" | "rebdrop" | "peek" => walkPath cx useIR rest w m   -- a child view taken and dropped leaves the parent as it was
     | "as_ref" | "as_slice" => walkPath cx useIR rest w false
     | _ => (.stuck, m, rest)
 
